@@ -27,9 +27,11 @@ CONSTS = {"MaxStreams": 9, "NDatasets": 2, "MaxPending": 3, "CleanInPlace": "FAL
 
 PLANS = {
     # focus, exhaustive history length, cap on exhaustive histories, (#random walks, depth), MC bound
-    "C11": {"quick": ("imm", 4, 6000, (1500, 8), 5), "thorough": ("imm", 4, 120000, (30000, 10), 5)},
-    "C12": {"quick": ("exec", 4, 6000, (1500, 9), 5), "thorough": ("exec", 4, 120000, (30000, 12), 5)},
-    "C16": {"quick": ("qmd", 3, 6000, (1500, 8), 4), "thorough": ("qmd", 4, 120000, (30000, 10), 5)},
+    # (thorough caps: the recorded projected state of 120000 + 60000 histories did not fit in memory - 27 GB - since the
+    #  records carry roots, mixes and shadow hashes; 50000 + 25000 exhaustive-family histories and 15000 walks do)
+    "C11": {"quick": ("imm", 4, 6000, (1500, 8), 5), "thorough": ("imm", 4, 50000, (15000, 10), 5)},
+    "C12": {"quick": ("exec", 4, 6000, (1500, 9), 5), "thorough": ("exec", 4, 50000, (15000, 12), 5)},
+    "C16": {"quick": ("qmd", 3, 6000, (1500, 8), 4), "thorough": ("qmd", 4, 50000, (15000, 10), 5)},
 }
 
 
